@@ -46,6 +46,45 @@ def scratch_root():
     return tempfile.mkdtemp(prefix="hsverif-", dir=base)
 
 
+_BUF = {}
+
+
+def impl_buffer_size(kind="file"):
+    """The read size the implementation's Stream asks for: file-backed data (kind "file") / an in-memory stream ("mem").
+    Measured on the live code rather than assumed: the model is parametric in it (contents are counted in buffers, the
+    chunking theorems hold for every buffer size > 0), so a change of the buffer alone moves nothing."""
+    if kind in _BUF:
+        return _BUF[kind]
+    import io
+    default = os.stat(tempfile.gettempdir()).st_blksize if kind == "file" else 8192
+    got = None
+    base = tempfile.mkdtemp(prefix="hsverif-buf-")
+    try:
+        import hashstore.filehashstore as fhs
+        asked = []
+
+        class Rec(io.BufferedReader):
+            def read(self, n=-1):
+                asked.append(n)
+                return super().read(n)
+        path = os.path.join(base, "probe")
+        with open(path, "wb") as fh:
+            fh.write(b"x" * 16)
+        raw = io.FileIO(path, "r") if kind == "file" else io.BytesIO(b"x" * 16)
+        st = fhs.Stream(Rec(raw))
+        for _ in st:
+            break
+        if asked and isinstance(asked[0], int) and asked[0] > 0:
+            got = asked[0]
+    except Exception:  # noqa: BLE001
+        got = None
+    finally:
+        import shutil
+        shutil.rmtree(base, ignore_errors=True)
+    _BUF[kind] = got or default
+    return _BUF[kind]
+
+
 class Universe:
     """Token tables for one store configuration."""
 
@@ -56,7 +95,7 @@ class Universe:
         self.pids = pids or {}          # token -> string
         self.fmts = fmts or {}          # token -> string   (token 0 = default namespace)
         self.fmts.setdefault(0, ns)
-        self.blksize = blksize or os.stat(tempfile.gettempdir()).st_blksize
+        self.blksize = blksize or impl_buffer_size("file")
         self._content = {}              # (b, n) -> bytes
         self._nchunks = {}              # b -> n  (one chunk count per content id)
         self._rebuild()
